@@ -96,7 +96,7 @@ def run_check(cid: str, tier: str, seed: int, jobs: int | None = None) -> int:
 
         pre_results = [_work(u) for u in main_units]
         _gc.enable()
-    if not units:
+    if not units or (int(os.environ.get("VERIF_STOP_AFTER", "0") or 0) and any(r.get("violations") for r in pre_results)):
         results = []
     elif getattr(check, "serial", False) or jobs == 1 or len(units) == 1:
         _init(cid, tier)
